@@ -220,7 +220,7 @@ pub fn check(prop: &str, tier: Tier, seed: u64) -> i32 {
                 seed,
                 CheckSpec {
                     level: "exploration",
-                    rule: "seeded histories of connect/try_connect/disconnect/isolate/queries over the four flavours, every call made through a simulator-chosen handle provenance, checked call by call against the reference multigraph and read back from both endpoints; distinct = distinct (abstract state shape, operation, subject, outcome class) tuples executed; tasks=1 (lock seam active in the sync flavours to report self-deadlock)".into(),
+                    rule: "seeded histories of connect/try_connect/disconnect/isolate/queries over the four flavours, every call made through a simulator-chosen handle provenance, checked call by call against the reference multigraph and read back from both endpoints; distinct = distinct (abstract state shape, operation, subject, outcome class) tuples executed; a quarter of the runs sample the small space (<= 3 nodes, <= 4 live edges in creation order, every edge operation with every operand) uniformly: its (flavour, state, operation) triples number 4 x 249054 = 996216 and the counter distinct_lower_bounds.small_state_x_operation says how many of them this run executed; tasks=1 (lock seam active in the sync flavours to report self-deadlock)".into(),
                     assumptions: vec!["all nodes stay alive for the whole run".into(), "reference model states only what C03 states (disconnect may remove any one live edge of the pair)".into()],
                 },
                 vec![p],
